@@ -204,8 +204,11 @@ unsafe fn arena_alloc(layout: Layout) -> *mut u8 {
         let start = (s.bump + HDR + align - 1) & !(align - 1);
         let end = start + rounded;
         if end > BASE + SIZE {
-            report(s, "arena-exhausted", start, size as u64, 0, 0);
-            return std::ptr::null_mut();
+            // The simulator's own capacity, not a finding about the library: say so and stop (the
+            // driver turns this into a harness error).
+            let msg = b"HARNESS arena exhausted (2 GiB): this run needs more memory than the simulator provides\n";
+            libc::write(2, msg.as_ptr() as *const libc::c_void, msg.len());
+            libc::_exit(3);
         }
         s.bump = end;
         if end > s.high_water {
